@@ -133,3 +133,12 @@ def detail(mod_globals, fmt, *args):
     ('proxy intolerance'), turning a refutable path into an UNKNOWN one."""
     if REAL:
         mod_globals["LAST_DETAIL"] = fmt % args
+
+
+def choose(seq, i):
+    """seq[i] for a symbolic index, forking once per feasible index so that the result is concrete on each path
+    (CrossHair turns `list_of_numbers[symbolic]` into one symbolic value instead)."""
+    for k, v in enumerate(seq):
+        if i == k:
+            return v
+    raise IndexError(i)
